@@ -26,13 +26,24 @@ Record ccase := mkCase {
   c_log : list item;
   c_finals : list (N * sstate);         (* object index -> value after all runs *)
   c_results : list (N * outcome);       (* run -> outcome *)
-  c_gens : N }.
+  c_gens : N;
+  c_modifier : bool }.                  (* the resumes were called with a state modifier *)
 
 Definition all_nodes (f : forest) : list node := List.concat (map g_nodes f).
 
 (* [build_err_t] (AddNode / Compile refuses the program), [must_fail_t] (a ProcessState call finds
    no state of its type: the run fails), [nest_ok], [lookup_ok]: Model/StateLockType.v — the
    hypotheses and the conclusion of state_lookup_well_typed *)
+
+(* the caller's modifier is applied exactly once to every state a checkpoint holds (and to
+   nothing when no modifier was given): the [m] of every resume step is the caller's *)
+Definition mods_ok (modifier : bool) (l : list item) : bool :=
+  forallb (fun it => match it with
+                     | IResume _ mods snaps =>
+                         if modifier then l_eqb Nat.eqb mods (sort_by Nat.ltb (map fst snaps))
+                         else match mods with [] => true | _ => false end
+                     | _ => true
+                     end) l.
 
 Definition stateful_count (f : forest) : N := N.of_nat (List.length (filter g_state f)).
 
@@ -78,7 +89,8 @@ Definition count_run (l : list item) (r : N) : nat :=
    acquisition_order / the generator-call clause evaluated, 221 the forest is not a tree of
    nested graphs (hypothesis of state_lookup_well_typed), 222 its conclusion evaluated: some
    instance does not see the object made by the generator of the nearest enclosing graph that
-   declares state *)
+   declares state, 223 the state modifier was not applied exactly once to every checkpointed
+   state *)
 Definition check_lts (c : ccase) : N :=
   let f := c_forest c in
   match drive f (c_x0 c) (c_runs c) (c_log c) with
@@ -113,7 +125,8 @@ Definition check_lts (c : ccase) : N :=
     if negb (acq_ok g) then 219 else
     if negb (gens_ok g) then 220 else
     if negb (nest_ok f) then 221 else
-    if negb (lookup_ok f g) then 222 else 0
+    if negb (lookup_ok f g) then 222 else
+    if negb (mods_ok (c_modifier c) (c_log c)) then 223 else 0
   end.
 
 Definition check_spec (c : ccase) : N :=     (* 0 = agree, otherwise the first check that failed *)
